@@ -21,6 +21,14 @@ def bootstrap():
         os.environ["PYTHONHASHSEED"] = "0"
         os.execv(sys.executable, [sys.executable] + sys.argv)
     sys.dont_write_bytecode = True
+    try:
+        # a library that builds a value of astronomic size must fail (MemoryError: a foreign exception, hence a verdict), not take the machine down
+        import resource
+
+        lim = int(os.environ.get("VMC_MEMORY_LIMIT_MB", "4096")) << 20
+        resource.setrlimit(resource.RLIMIT_AS, (lim, lim))
+    except Exception:  # noqa - no such limit on this platform: nothing lost on the unchanged tree
+        pass
     rd = repo_dir()
     sys.path[:] = [p for p in sys.path if os.path.abspath(p or ".") != rd]
     sys.path.insert(0, rd)
@@ -76,6 +84,13 @@ def main(argv=None):
         if rep["sig"].endswith("/under-python-O") and not sys.flags.optimize:
             os.execv(sys.executable, [sys.executable, "-O"] + sys.argv)  # the environment the violation was found in
         mod = importlib.import_module(rep["module"])
+        rr = unjson(rep["replay"])
+        if isinstance(rr, dict) and rr.get("kind") == "memory":
+            sh = rr["shard"]
+            res, errs = par.run_shards(rep["module"], [tuple(sh) if isinstance(sh, list) else sh], rep.get("tier", "quick"), rep.get("seed", 0), workers=1)
+            ok = not errs and not res.violations
+            print("REPLAY", "holds" if ok else "VIOLATES", "property=%s sig=%s" % (rep["property_id"], rep["sig"]))
+            return 0 if ok else 1
         if rep["sig"].endswith("/with-debug-logging"):
             from vmc.checks.harness import debug_logging
 
